@@ -275,6 +275,10 @@ func runSCIONServer(ctx context.Context, log *slog.Logger, mtrcs *scionServerMet
 			}
 			buffer.PushLayer(udpLayer.LayerType())
 
+			// extension headers of the received packet: SCION [HBH] [E2E] UDP
+			hasHBH := scionLayer.NextHdr == slayers.HopByHopClass
+			hasE2E := decoded[len(decoded)-2] == slayers.LayerTypeEndToEndExtn
+
 			if len(oob) != 0 {
 				tsOpt.OptType = scion.OptTypeTimestamp
 				tsOpt.OptData = oob
@@ -283,20 +287,36 @@ func runSCIONServer(ctx context.Context, log *slog.Logger, mtrcs *scionServerMet
 				tsOpt.OptDataLen = 0
 				tsOpt.ActualLength = 0
 
-				if scionLayer.NextHdr != slayers.End2EndClass {
+				if !hasE2E {
 					e2eLayer = slayers.EndToEndExtn{}
 					e2eLayer.NextHdr = slayers.L4UDP
-					scionLayer.NextHdr = slayers.End2EndClass
+					hasE2E = true
 				}
 				e2eLayer.Options = append(e2eLayer.Options, tsOpt)
 			}
 
-			if scionLayer.NextHdr == slayers.End2EndClass {
+			if hasE2E {
 				err = e2eLayer.SerializeTo(buffer, options)
 				if err != nil {
 					panic(err)
 				}
 				buffer.PushLayer(e2eLayer.LayerType())
+				if !hasHBH {
+					scionLayer.NextHdr = slayers.End2EndClass
+				}
+			}
+
+			if hasHBH {
+				// the hop-by-hop extension is forwarded as received
+				b, err := buffer.PrependBytes(len(hbhLayer.Contents))
+				if err != nil {
+					panic(err)
+				}
+				copy(b, hbhLayer.Contents)
+				if hasE2E {
+					b[0] = uint8(slayers.End2EndClass)
+				}
+				buffer.PushLayer(hbhLayer.LayerType())
 			}
 
 			err = scionLayer.SerializeTo(buffer, options)
